@@ -2,7 +2,7 @@
 # usage: tools/seedsweep.sh [seed dir names...] ; runs every stored seeded change against its property's quick check
 # (sequentially: each is applied to /repo and reverted) and prints one summary line per change.
 cd /verif
-[ $# -eq 0 ] && set -- $(ls seeded)
+[ $# -eq 0 ] && set -- $(ls -d seeded/*/ | xargs -n1 basename)
 for s in "$@"; do
   id=${s%%-*}
   out=$(timeout 2400 tools/seedtest.sh /verif/seeded/$s/patch.diff $id 2>&1)
